@@ -1065,6 +1065,67 @@ def rule_life(c: Ctx) -> RuleResult:
                   f"closed under children: {rec}" if rec else
                   f"the eliminator does not call itself on `{var}.children` for every element it visits: an image nested inside an image "
                   f"description keeps its text_special tokens (the traversal is not closed under `children`)")
+    # (c) the driver hands every element of the stream it walks to the eliminator: inside the loop that contains the call, only
+    # tests of the element's `type` and of its `children` being empty / None may skip it
+    for h in sorted({cs.caller for e in elims for cs in c.cg.callers.get(e, []) if cs.caller not in elims and cs.caller in c.cg.api_phase()}, key=lambda f: f.qual):
+        calls = [cs.node for cs in c.cg.sites.get(h, []) if any(e in cs.callees for e in elims)]
+        for call in calls:
+            loop = h.module.parents.get(call)
+            while loop is not None and loop is not h.node and not isinstance(loop, ast.For):
+                loop = h.module.parents.get(loop)
+            if not isinstance(loop, ast.For) or not isinstance(loop.target, ast.Name):
+                continue
+            var = loop.target.id
+            aliases = {n.targets[0].id for n in ast.walk(loop) if isinstance(n, ast.Assign) and len(n.targets) == 1 and isinstance(n.targets[0], ast.Name)
+                       and U(_strip_iter(n.value)) == f"{var}.children"
+                       and sum(1 for m in own_nodes(h.node) if isinstance(m, ast.Name) and isinstance(m.ctx, ast.Store) and m.id == n.targets[0].id) == 1}
+
+            def allowed(t: ast.AST) -> bool:
+                if _mentions_only(t, var, ("children", "type")):
+                    return True
+                # emptiness of an alias of the children list
+                t0 = t
+                while isinstance(t0, ast.UnaryOp) and isinstance(t0.op, ast.Not):
+                    t0 = t0.operand
+                if isinstance(t0, ast.Name) and t0.id in aliases:
+                    return True
+                if isinstance(t0, ast.Compare) and len(t0.ops) == 1 and isinstance(t0.left, ast.Name) and t0.left.id in aliases \
+                        and isinstance(t0.ops[0], (ast.Is, ast.IsNot)) and isinstance(t0.comparators[0], ast.Constant) and t0.comparators[0].value is None:
+                    return True
+                return False
+            cfg = c.cfg(h)
+            head = next((n for n in cfg.nodes if n.kind == "for" and n.ast is loop), None)
+            cnodes = set(x.id for x in cfg.owner(call))
+            if head is None or not cnodes:
+                continue
+            inside = {id(x) for x in ast.walk(loop)}
+            can: set[int] = set()
+            stack = [x for x in cfg.nodes if x.id in cnodes]
+            while stack:
+                x = stack.pop()
+                if x.id in can:
+                    continue
+                can.add(x.id)
+                stack.extend(p for (p, l) in x.pred if p is not head and p.ast is not None and id(p.ast) in inside)
+            bypass = None
+            seen: set[int] = set()
+            stack = [m for (m, l) in head.succ if l == "iter" or (m.ast is not None and id(m.ast) in inside)]
+            while stack and bypass is None:
+                x = stack.pop()
+                if x.id in seen or x.id in cnodes:
+                    continue
+                seen.add(x.id)
+                if x is head or x is cfg.exit or (x.ast is not None and id(x.ast) not in inside):
+                    bypass = x
+                    break
+                succ = [(m, l) for (m, l) in x.succ if l != "exc"]
+                if x.kind == "test" and x.ast is not None and allowed(x.ast):
+                    succ = [(m, l) for (m, l) in succ if m.id in can] or succ
+                stack.extend(m for (m, l) in succ)
+            r.add(f"driver|{h.short}|{alpha(h, call)[:50]}", c.where(h, call), h.short, U(call)[:70], "violation" if bypass is not None else "discharged",
+                  f"an element of `{U(loop.iter)}` can pass through the loop without reaching the eliminator behind a test other than of its "
+                  f"type / of its children being empty: its text_special tokens (and those of nested image descriptions) survive" if bypass is not None else
+                  f"every element of `{U(loop.iter)}` reaches the eliminator (only its type / empty children can skip it)")
     for (g, call, tokarg) in sorted(parents, key=lambda x: x[0].qual):
         # what kind of parent receives the list?
         kind = "inline" if g.module.rel.startswith("rules_core/") else ("image" if g.short == "image" else g.short)
